@@ -16,7 +16,7 @@ DEFAULTS = ["0", "1", "-1", "1.5", "'s'", "None", "True", "[]", "()", "{}", "(1,
 NAME_STRINGS = ["'x'", "'b'", "'a'", "'value'"]  # string constants equal to parameter names (constant/location clash)
 INERT = ["import os", "import sys", "from typing import Optional, List, Literal", "pass", "import numpy as np", "assert True", "n0 += 1",
          "print('hi')", "if os.sep:\n    import sys", "raise SystemExit", "global G", "del os"]
-DOCS_STABLE = ["Doc.", "Summary line.\n\nMore text here.", "One.\n\n:param a: thing\n:type a: ```int```", "x"]
+DOCS_STABLE = ["Doc.", "Summary line.\n\nMore text here.", "One.\n\n:param a: thing\n:type a: ```int```", "Usage:\n\n    code(block)\n\nend."]
 DOCS_UNSTABLE = ["  Foo  ", "Trailing  \n   spaces   ", "\tTabbed\n\t\tmore"]
 WRAPS = ["Optional[{output_param}]", "Optional[Union[{output_param}, str]]", "List[{output_param}]", "{output_param} | None",
          "Annotated[{output_param}, 'meta']", "Union[{output_param}, {output_param}]"]
